@@ -135,14 +135,14 @@ def _sorted_everywhere(v) -> bool:
     return True          # lists, and the dicts inside lists, keep their order
 
 
-def _peek(path):
+def _peek(path, **kw):
     """what a read of `path` returns now (placeholder entries dropped), without disturbing the history: the counter is put back"""
     import spec
     from dictIO import DictReader
     from dictIO.utils.counter import BorgCounter
     keep = BorgCounter.Borg["theCount"]
     try:
-        return spec.strip_placeholders(impl.plain(DictReader.read(path)))
+        return spec.strip_placeholders(impl.plain(DictReader.read(path, **kw)))
     except BaseException:  # noqa: BLE001
         return None
     finally:
@@ -197,7 +197,7 @@ def run_impl(case: dict, fails: list | None = None):
                     what = None
                     if after is None:
                         what = "the written file cannot be read back"
-                    elif ordered and not _sorted_everywhere({k: v for k, v in after.items() if k != "FoamFile"}):
+                    elif ordered and not _sorted_everywhere({k: v for k, v in (_peek(tgt, includes=False) or {}).items() if k != "FoamFile"}):
                         what = "written with order=True, but a dict level of the file is not sorted"
                     elif mode == "a" and before is not None:
                         lost = [list(pth) for pth, val in _leaf_paths({k: v for k, v in before.items() if k != "FoamFile"})
